@@ -27,6 +27,9 @@ UNIVERSE_COMMON = {
     "G": ("struct", None, True, 1), "H": ("struct", None, True, 2),
     "AT": ("alias:T", True, True, 0), "AE": ("alias:E", True, True, 0), "AI": ("alias:I", True, True, 0),
     "Ptr": ("ptr", True, False, 0), "Ch": ("chan", True, True, 0),
+    "Box": ("chan", True, True, 0), "BoxS": ("chan", True, True, 0), "BoxR": ("chan", True, True, 0), "SlM": ("slice", False, True, 0),
+    "MpM": ("map", False, True, 0), "FnM": ("func", False, True, 0), "ArM": ("array", True, True, 0), "StM": ("string", True, True, 0),
+    "FlM": ("float", True, True, 0), "PsM": ("struct", True, True, 0),
 }
 ALIAS_TARGET = {"AT": "T", "AE": "E", "AI": "I"}
 
@@ -56,17 +59,54 @@ type Ptr *T
 type Ch chan int
 type t struct{ z int }
 
-func (T) M() int      { return 0 }
+// every M returns a value that identifies (package, receiver type): a call through an interface must reach THIS method
+func (T) M() int      { return pkgID*100 + 1 }
 func (*T) N(string)   {}
 func (T) k()          {}
-func (E) M() int      { return 0 }
+func (E) M() int      { return pkgID*100 + 2 }
 func (E) N(string)    {}
 func (U) m()          {}
-func (U) M() int      { return 0 }
+func (U) M() int      { return pkgID*100 + 3 }
 func (*U) k()         {}
-func (G[A]) M() int   { return 0 }
+func (G[A]) M() int   { return pkgID*100 + 4 }
 func (*G[A]) Get() A  { var z A; return z }
-func (t) M() int      { return 0 }
+func (t) M() int      { return pkgID*100 + 5 }
+
+// defined types over every kind that can carry methods (the uncommon part sits behind a kind-specific header:
+// chantype has one word more than ptrtype/slicetype, maptype and arraytype more still), value and pointer receivers
+type Box chan int
+type BoxS chan<- int
+type BoxR <-chan int
+type SlM []int
+type MpM map[string]int
+type FnM func(int) int
+type ArM [2]int
+type StM string
+type FlM float64
+type PsM struct{ A, B int8 }
+
+func (Box) M() int     { return pkgID*100 + 10 }
+func (*Box) N(string)  {}
+func (Box) k()         {}
+func (BoxS) M() int    { return pkgID*100 + 11 }
+func (BoxS) N(string)  {}
+func (BoxR) M() int    { return pkgID*100 + 12 }
+func (*BoxR) N(string) {}
+func (SlM) M() int     { return pkgID*100 + 13 }
+func (*SlM) N(string)  {}
+func (MpM) M() int     { return pkgID*100 + 14 }
+func (MpM) N(string)   {}
+func (FnM) M() int     { return pkgID*100 + 15 }
+func (*FnM) N(string)  {}
+func (ArM) M() int     { return pkgID*100 + 16 }
+func (*ArM) N(string)  {}
+func (ArM) k()         {}
+func (StM) M() int     { return pkgID*100 + 17 }
+func (StM) N(string)   {}
+func (FlM) M() int     { return pkgID*100 + 18 }
+func (*FlM) N(string)  {}
+func (PsM) M() int     { return pkgID*100 + 19 }
+func (*PsM) N(string)  {}
 
 type Ka interface{ a() int }
 type Kb interface{ b() int }
@@ -82,6 +122,7 @@ func (Xa2) a() int { return pkgID*10 + 3 }
 
 // a call through an interface value of the instantiating type (interface{ p.Ka; q.Ka } has TWO methods named a)
 func CallKa[T Ka](x T) int { return x.a() }
+func CallKb[T Kb](x T) int { return x.b() }
 
 // a non-ASCII exported method name sorts AFTER every `pkgpath.name` of an unexported method
 type Uni interface {
@@ -96,6 +137,9 @@ func (UniT) Äb() int { return 1 }
 func (UniT) b() int  { return 2 }
 func (UniT) Zc() int { return 3 }
 func (UniT) x() int  { return 4 }
+
+// static conversion to Uni happens at the call site; all four slots of the itab are used
+func UseUni(u Uni) int { return u.Äb()*1000 + u.b()*100 + u.Zc()*10 + u.x() + pkgID*10000 }
 
 type Kab interface {
 	a() int
